@@ -54,7 +54,7 @@ NOT_APPLICABLE = {
 
 CLAIMED["C08"] = dict(level="exploration", ref="DESIGN.md 5/C08",
     text="Seeded operation histories (add, add_all batches, on_generation, select, ranked reads; 5..120 ops quick, ..600 thorough) on the three real populations (Greedy, Elitism, Rosomaxa) with generated sizes, selection sizes, rebalance memory and exploration ratio, under the simulated scheduler (Rosomaxa trains through the fork-join seam), worker RNG streams and hash order; after every operation the population is compared with a reference model that remembers every offered individual under an independent comparator: first ranked never worse than the best ever offered (singly or inside a batch), ranked() sorted, size bounds, select() a sub-multiset of what was offered and non-empty iff the population is, phases only forward.",
-    note="The crash-restart consequence clause (stored solution read back as initial solution) is exercised only through the reader fixes found by C12, not by a dedicated scenario; the objective is the harness' total preorder over generated fitness vectors, so C09 is not assumed.",
+    note="One case in ten is a crash-restart pair for the consequence clause: a (possibly clock-interrupted) simulated solve emits a document, it is read back through read_init_solution and seeds a second solve under an independent schedule/clock/hash/config seed; the returned individual must not be worse than the seeded one under Goal::total_order. Histories use the harness' total preorder over generated fitness vectors, so C09 is not assumed there; the restart verdict uses the repository's own goal on both sides.",
     tech=TECH + "population operation-history search against a best-ever-offered reference model under seeded schedules, RNG streams and hash order")
 
 CLAIMED["C12"] = dict(level="fault_enumeration", ref="DESIGN.md 5/C12",
